@@ -32,7 +32,8 @@ def values():
         st.one_of(
             st.builds(lambda s: ["str", s], st.one_of(gen.safe_text(0, 3), st.sampled_from(["", "<b>", "a&b"]))),
             st.builds(lambda v: ["num", v], st.one_of(st.integers(-3, 30), st.sampled_from([0, 1.5, -0.0]))),
-            st.sampled_from([["none"], ["ellipsis"], ["repr", "<u>r</u>"], ["html", "<i>h</i>"], ["tag", "span"], ["tag", "div"], ["tfy"], ["dep"], ["widget", "<w>1</w>"], ["meta"]]),
+            st.sampled_from([["none"], ["ellipsis"], ["repr", "<u>r</u>"], ["html", "<i>h</i>"], ["tag", "span"], ["tag", "div"], ["tfy"], ["dep"], ["widget", "<w>1</w>"], ["meta"],
+                             ["repr", ""], ["html", ""], ["widget", ""], ["repr", " "], ["html", "0"], ["tag", "br"], ["num", 0.0]]),
             st.builds(lambda a, b: ["list", a, b], st.sampled_from(["list", "tuple", "taglist"]), st.lists(st.sampled_from([["str", "x"], ["num", 2], ["none"], ["tag", "b"], ["html", "<q>"]]), max_size=3)),
         )
     )
@@ -45,7 +46,7 @@ def block(depth):
     if depth == 0:
         return st.lists(st.one_of(*simple), max_size=4)
     inner = block(depth - 1)
-    w = st.builds(lambda name, ws, b: ["with", name, ws, b], st.sampled_from(["div", "span", "ul", "p"]), st.booleans(), inner)
+    w = st.builds(lambda name, ws, b: ["with", name, ws, b], st.sampled_from(["div", "span", "ul", "p", "div", "span", "br", "img", "input", "hr", "meta", "script", "style", "body", "head", "html", "x-widget", "pre"]), st.booleans(), inner)
     t = st.builds(lambda b: ["try", b], inner)
     # opaque(): keep the branch weights (a flattened one_of would make with-blocks rare)
     stmt = st.one_of(gen.opaque(st.one_of(*simple)), w, w, gen.opaque(t))
@@ -53,7 +54,7 @@ def block(depth):
 
 
 def case_strategy():
-    return st.fixed_dictionaries({"prog": block(3), "default_hook": st.sampled_from([False, False, False, True]), "falsy_hook": st.sampled_from([False, False, True])})
+    return st.fixed_dictionaries({"prog": block(3), "default_hook": st.sampled_from([False, False, False, True]), "falsy_hook": st.sampled_from([False, False, True]), "wrapped_hook": st.sampled_from([False, False, True])})
 
 
 def build_value(v):
@@ -243,6 +244,8 @@ class Interp:
             elif k == "with":
                 init = ["init"] if s[1] in ("ul", "p") else []
                 tag = h.Tag(s[1], *init, _add_ws=s[2])
+                if s[1] not in ("div", "span", "ul", "p"):
+                    self.stats["special_block"] = 1
                 m = {"tag": tag, "kids": [("text", x) for x in init]}
                 h0 = sys.displayhook
                 self.stats["blocks"] += 1
@@ -289,6 +292,21 @@ def body(case, note):
                 it.base_seen.append(v)
 
         base_hook = RecordingList()
+    inner_seen: list = []
+    if not default and case.get("wrapped_hook"):
+        # a decorated hook (functools.wraps): what it wraps must not be called in its place
+        import functools
+
+        def plain_hook(v):
+            inner_seen.append(v)
+
+        rec = base_hook
+
+        @functools.wraps(plain_hook)
+        def logged_hook(v):
+            rec(v)
+
+        base_hook = logged_hook
     sys.displayhook = base_hook
     buf = io.StringIO()
     saved_underscore = getattr(builtins, "_", None)
@@ -299,6 +317,7 @@ def body(case, note):
             except Boom:
                 pass
         check(sys.displayhook is base_hook, "at program end the display hook is not the outermost hook")
+        check(not inner_seen, "a function that the installed hook merely wraps (functools.wraps) was called instead of the hook", len(inner_seen))
         check(not it.active, "harness: active stack not empty")
         if default:
             shown = [v for v in it.base_model if v is not None]
@@ -323,6 +342,8 @@ def body(case, note):
         "default-hook" if default else "",
         "falsy-hook" if (not default and case.get("falsy_hook")) else "",
         "same-object-again" if s.get("again") else "",
+        "decorated-hook" if (not default and case.get("wrapped_hook")) and s["blocks"] else "",
+        "void-or-special-block-tag" if s.get("special_block") else "",
     )
 
 
@@ -333,5 +354,5 @@ RULE = (
 )
 
 CLAUSES = [
-    Clause("programs", body, strategy=case_strategy, quick=600, thorough=10000, shards_quick=4, required=("exception-crossed-block", "reentry", "invalid-display-in-block", "depth>=3", "default-hook", "falsy-hook", "same-object-again"), rule="see RULE"),
+    Clause("programs", body, strategy=case_strategy, quick=600, thorough=10000, shards_quick=4, required=("exception-crossed-block", "reentry", "invalid-display-in-block", "depth>=3", "default-hook", "falsy-hook", "same-object-again", "decorated-hook", "void-or-special-block-tag"), rule="see RULE"),
 ]
